@@ -279,16 +279,16 @@ def decision(spec):
                 w32(l1a, rng.getrandbits(30) << 2)
             elif kind == 'section':
                 w32(l1a, (pa_hi << 20) | (rng.getrandbits(1) << 17) | (rng.getrandbits(1) << 16) | ((ap >> 2) << 15) | (tex << 12) |
-                    ((ap & 3) << 10) | (dom << 5) | (rng.getrandbits(1) << 4) | (cb << 2) | 0b10 | rng.getrandbits(1))
+                    ((ap & 3) << 10) | (rng.getrandbits(1) << 9) | (dom << 5) | (rng.getrandbits(1) << 4) | (cb << 2) | 0b10 | rng.getrandbits(1))
             elif kind == 'super':
                 w32(l1a, ((pa_hi >> 4) << 24) | (rng.getrandbits(4) << 20) | (1 << 18) | (rng.getrandbits(1) << 17) | ((ap >> 2) << 15) |
-                    (tex << 12) | ((ap & 3) << 10) | (rng.getrandbits(4) << 5) | (cb << 2) | 0b10)
+                    (tex << 12) | ((ap & 3) << 10) | (rng.getrandbits(1) << 9) | (rng.getrandbits(4) << 5) | (cb << 2) | 0b10)
             else:
                 l2t = l2next
                 l2next += 0x400
                 if l2next > 0x1F000:
                     l2next = L2BASE
-                w32(l1a, l2t | (dom << 5) | (rng.getrandbits(2) << 2) | 0b01)
+                w32(l1a, l2t | (rng.getrandbits(1) << 9) | (dom << 5) | (rng.getrandbits(2) << 2) | 0b01)        # bit 9: IMPLEMENTATION DEFINED
                 l2a = l2t + 4 * ((mva >> 12) & 0xFF)
                 k2 = rng.choice(['fault', 'small', 'small', 'large'])
                 kind = 'table/' + k2
